@@ -52,3 +52,38 @@ package crunchrun
 //@ func copier.walkHostFS property C17 safety -bounds
 //@   calls copier.walkMountsBelow#1: requires includeMounts && $0 == dest && $1 == src
 //@   calls copier.walkMount#1: requires maxSymlinks >= 0 && $0 == dest && $1 == target && $2 == maxSymlinks - 1 && $3 == true
+
+// walkMountsBelow: every mount strictly below src (other than those copied as
+// regular files) is walked once, to the corresponding place below dest, without
+// a symlink budget and without descending into mounts again; the first error
+// ends the walk and is returned.
+//@ func copier.copyRegularFiles trusted pure
+//@   modifies nothing
+//@ func copier.walkMountsBelow property C17 safety -bounds
+//@   ghost werr error = nil
+//@   calls copier.walkMount#1: requires strings.HasPrefix(mnt, src + "/") && !copier.copyRegularFiles(cp, mntinfo) && $0 == dest + mnt[len(src):] && $1 == mnt && $2 == 0 && $3 == false
+//@   calls copier.walkMount#1: set werr = $r
+//@   loop 1: invariant werr == nil
+//@   ensures result == nil ==> werr == nil
+
+// copyFile: the destination is created in the output collection at the file's
+// destination path, the source is the file's host path, and success means the
+// whole copy and the close of the destination succeeded (a failed flush of the
+// collection file is not lost); the byte count is io.Copy's.
+//@ iface CollectionFileSystem.OpenFile
+//@   modifies nothing
+//@ iface File.Close
+//@   modifies nothing
+//@ func copier.copyFile property C17
+//@   ghost cn int64 = 0
+//@   ghost cerr error = nil
+//@   ghost clerr error = nil
+//@   ghost copied bool = false
+//@   calls CollectionFileSystem.OpenFile#1: requires $0 == f.dst && $1 == 65
+//@   calls os.Open#1: requires $0 == f.src
+//@   calls io.Copy#1: requires $0 == dst && $1 == src
+//@   calls io.Copy#1: set cn = $r0
+//@   calls io.Copy#1: set cerr = $r1
+//@   calls io.Copy#1: set copied = true
+//@   calls File.Close#4: set clerr = $r
+//@   ensures result1 == nil ==> copied && cerr == nil && clerr == nil && result0 == cn
